@@ -21,8 +21,8 @@ CLASSES = {
                               "catchable exception continues, so catch/finally blocks and later statements of the activation chain run",
     "asyncgen-start-assert": "a RuntimeLimit error inside the synchronously started part of an async generator body (first next()) reaches "
                              "`assert!(!result.is_throw_completion())` in builtins/async_generator/mod.rs AsyncGenerator::resume: Rust panic instead of a RuntimeLimitError",
-    "limit-masked-as-panic": "starting an async function under a recursion limit too small for the NewPromiseCapability call reports `EnginePanic: cannot fail per "
-                             "spec` (vm/opcode/await/mod.rs CreatePromiseCapability uses js_expect on a fallible call) instead of RuntimeLimitError::Recursion",
+    "limit-masked-as-panic": "starting an async function under a recursion or stack limit too small for the NewPromiseCapability call reports `EnginePanic: cannot fail per "
+                             "spec` (vm/opcode/await/mod.rs CreatePromiseCapability uses js_expect on a fallible call) instead of the RuntimeLimitError",
 }
 
 
